@@ -77,4 +77,13 @@ structure KeyOpRow where
   priv : Option Bool
   deriving Repr, DecidableEq, Inhabited
 
+/-- One write to shared state found in the AST of joserfc (tools/extract.py `write_footprint`). -/
+structure WriteSite where
+  file : String
+  cls : String        -- enclosing class ("" for module-level functions)
+  func : String
+  kind : String       -- assign | del | call.<method>
+  target : String
+  deriving Repr, DecidableEq, Inhabited
+
 end Jose
